@@ -206,6 +206,68 @@ theorem mergeSort_perm_eq {l₁ l₂ : List String} (h : l₁.Perm l₂) :
   · exact List.pairwise_mergeSort leStr_trans leStr_total l₂
   · exact (List.mergeSort_perm l₁ leStr).trans (h.trans (List.mergeSort_perm l₂ leStr).symm)
 
+theorem key_inj (a b : UsedOpset) (h1 : a.1 = b.1) (hk : a.key = b.key) : a = b := by
+  obtain ⟨ad, av⟩ := a
+  obtain ⟨bd, bv⟩ := b
+  simp only [UsedOpset.key] at hk
+  simp only at h1
+  subst h1
+  cases av <;> cases bv <;> simp at hk <;> simp [hk]
+
+theorem leOpset_eq_of_eq {a b : UsedOpset} (h : a.1 = b.1) : leOpset a b = decide (a.key ≤ b.key) := by
+  unfold leOpset; rw [if_pos h]
+theorem leOpset_eq_of_ne {a b : UsedOpset} (h : ¬ a.1 = b.1) : leOpset a b = decide (a.1 ≤ b.1) := by
+  unfold leOpset; rw [if_neg h]
+
+theorem leOpset_total (a b : UsedOpset) : (leOpset a b || leOpset b a) = true := by
+  by_cases h : a.1 = b.1
+  · rw [leOpset_eq_of_eq h, leOpset_eq_of_eq h.symm, Bool.or_eq_true, decide_eq_true_eq, decide_eq_true_eq]
+    exact Nat.le_total _ _
+  · have h' : ¬ b.1 = a.1 := fun e => h e.symm
+    rw [leOpset_eq_of_ne h, leOpset_eq_of_ne h', Bool.or_eq_true, decide_eq_true_eq, decide_eq_true_eq]
+    exact String.le_total _ _
+
+theorem leOpset_antisymm (a b : UsedOpset) (hab : leOpset a b = true) (hba : leOpset b a = true) : a = b := by
+  by_cases h : a.1 = b.1
+  · rw [leOpset_eq_of_eq h, decide_eq_true_eq] at hab
+    rw [leOpset_eq_of_eq h.symm, decide_eq_true_eq] at hba
+    exact key_inj a b h (Nat.le_antisymm hab hba)
+  · have h' : ¬ b.1 = a.1 := fun e => h e.symm
+    rw [leOpset_eq_of_ne h, decide_eq_true_eq] at hab
+    rw [leOpset_eq_of_ne h', decide_eq_true_eq] at hba
+    exact absurd (String.le_antisymm hab hba) h
+
+theorem leOpset_trans (a b c : UsedOpset) (hab : leOpset a b = true) (hbc : leOpset b c = true) :
+    leOpset a c = true := by
+  by_cases h1 : a.1 = b.1 <;> by_cases h2 : b.1 = c.1
+  · rw [leOpset_eq_of_eq h1, decide_eq_true_eq] at hab
+    rw [leOpset_eq_of_eq h2, decide_eq_true_eq] at hbc
+    rw [leOpset_eq_of_eq (h1.trans h2), decide_eq_true_eq]
+    exact Nat.le_trans hab hbc
+  · have h3 : ¬ a.1 = c.1 := fun e => h2 (h1.symm.trans e)
+    rw [leOpset_eq_of_ne h2, decide_eq_true_eq] at hbc
+    rw [leOpset_eq_of_ne h3, decide_eq_true_eq, h1]
+    exact hbc
+  · have h3 : ¬ a.1 = c.1 := fun e => h1 (e.trans h2.symm)
+    rw [leOpset_eq_of_ne h1, decide_eq_true_eq] at hab
+    rw [leOpset_eq_of_ne h3, decide_eq_true_eq, ← h2]
+    exact hab
+  · rw [leOpset_eq_of_ne h1, decide_eq_true_eq] at hab
+    rw [leOpset_eq_of_ne h2, decide_eq_true_eq] at hbc
+    by_cases h3 : a.1 = c.1
+    · exact absurd (String.le_antisymm hab (h3 ▸ hbc)) h1
+    · rw [leOpset_eq_of_ne h3, decide_eq_true_eq]
+      exact String.le_trans hab hbc
+
+theorem mergeSort_leOpset_perm_eq {l₁ l₂ : List UsedOpset} (h : l₁.Perm l₂) :
+    l₁.mergeSort leOpset = l₂.mergeSort leOpset := by
+  apply List.Perm.eq_of_pairwise (le := fun a b => leOpset a b = true)
+  · intro a b _ _ hab hba
+    exact leOpset_antisymm a b hab hba
+  · exact List.pairwise_mergeSort leOpset_trans leOpset_total l₁
+  · exact List.pairwise_mergeSort leOpset_trans leOpset_total l₂
+  · exact (List.mergeSort_perm l₁ leOpset).trans (h.trans (List.mergeSort_perm l₂ leOpset).symm)
+
 /-! globals -/
 
 theorem translate_eval (g : Globals) (x : Val) (e : SExp) : (translate g e).eval x = e.evalPy g x := by
